@@ -35,7 +35,7 @@ VARIABLES filt,      \* active query -> filter (column -> [v |-> value or "NULL"
           pc,        \* query -> "idle" | "begun" | "registered" | "readfirst" | "held"
           ndep,      \* query -> number of dependencies registered with the tracker
           cur,       \* query -> BOOLEAN : the current run's dependency is among them
-          held,      \* query -> set of ids
+          held,      \* query -> set of rows
           dirty,     \* query -> BOOLEAN : invalidated since its run began (or never ran)
           nw, nbad
 vars == <<filt, table, log, pc, ndep, cur, held, dirty, nw, nbad>>
@@ -45,7 +45,7 @@ NULL == "NULL"
 NoRow == [id |-> "NONE"]
 \* sqlgen's Tester: every filter column equals the row's column as SQL values; nil matches NULL
 Matches(f, row) == row.id # "NONE" /\ (\A c \in DOMAIN f : row[c] = f[c].v)
-Rows(t, f) == {i \in DOMAIN t : Matches(f, t[i])}
+Rows(t, f) == {t[i] : i \in {j \in DOMAIN t : Matches(f, t[j])}}        \* full rows, not only their ids
 Row(i, v) == [id |-> i, org |-> v]
 
 \* maybe: whether the event can be decoded is not known in advance (trace validation, after ALTER TABLE)
